@@ -42,14 +42,21 @@ Proof.
   rewrite (C01_SE3_div_is X Y) by apply HX.
   repeat split; try apply SE3_mul; try apply SE3_inv; assumption.
 Qed.
-Lemma C01_SO2_closed : forall X Y, SO2 X -> SO2 Y -> SO2 (tr_SO2_mul Rops X Y).
-Proof. intros X Y HX HY. rewrite C01_SO2_mul_is. apply SO2_mul; assumption. Qed.
-(* 2-D rigid motions: directly on the traces (small polynomials) *)
-Lemma C01_SE2_closed : forall A B, SE2 A -> SE2 B -> SE2 (tr_SE2_mul Rops A B) /\ SE2 (tr_trinv2 Rops A).
+(* 2-D: directly on the traces (small polynomials).  SO2.inv / SE2.inv / "/" are traceable since fix 1c511ed (check=False) *)
+Lemma C01_SO2_closed : forall X Y, SO2 X -> SO2 Y ->
+  SO2 (tr_SO2_mul Rops X Y) /\ SO2 (tr_SO2_div Rops X Y) /\ SO2 (tr_SO2_inv Rops X).
+Proof.
+  intros X Y HX HY. destruct_tuples. pose proof (SO2_columns _ _ _ _ HX) as (?&?&?). pose proof (SO2_columns _ _ _ _ HY) as (?&?&?).
+  unfold SO2 in *. decompose [and] HX. decompose [and] HY. autounfold with smgen. sm_simpl.
+  split; [ repeat split; nsatz | split; repeat split; nsatz ].
+Qed.
+Lemma C01_SE2_closed : forall A B, SE2 A -> SE2 B ->
+  SE2 (tr_SE2_mul Rops A B) /\ SE2 (tr_SE2_div Rops A B) /\ SE2 (tr_SE2_inv Rops A) /\ SE2 (tr_trinv2 Rops A).
 Proof.
   intros A B [HA LA] [HB LB]. destruct_tuples. unfold SE2, t2r2, lastrow3 in *. injection LA; injection LB; intros; subst.
+  pose proof (SO2_columns _ _ _ _ HA) as (?&?&?). pose proof (SO2_columns _ _ _ _ HB) as (?&?&?).
   autounfold with smgen. sm_simpl. unfold SO2 in *. decompose [and] HA. decompose [and] HB.
-  repeat split; try nsatz; tuple_eq ltac:(ring).
+  repeat match goal with |- _ /\ _ => split end; try nsatz; tuple_eq ltac:(ring).
 Qed.
 
 (* ---------- integer powers through the class: X ** n for n = 0..3 is the iterated product of the model ---------- *)
@@ -67,8 +74,8 @@ Proof. intros. unfold pow_Z. simpl. repeat split; same_tr. Qed.
 Theorem C01_operators_closed : forall (X Y : M33 R) (A B : M44 R) (P Q : M22 R) (E F : M33 R),
   (SO3 X -> SO3 Y -> SO3 (tr_SO3_mul Rops X Y) /\ SO3 (tr_SO3_div Rops X Y) /\ SO3 (tr_SO3_inv Rops X)) /\
   (SE3 A -> SE3 B -> SE3 (tr_SE3_mul Rops A B) /\ SE3 (tr_SE3_div Rops A B) /\ SE3 (tr_SE3_inv Rops A) /\ SE3 (tr_trinv Rops A)) /\
-  (SO2 P -> SO2 Q -> SO2 (tr_SO2_mul Rops P Q)) /\
-  (SE2 E -> SE2 F -> SE2 (tr_SE2_mul Rops E F) /\ SE2 (tr_trinv2 Rops E)).
+  (SO2 P -> SO2 Q -> SO2 (tr_SO2_mul Rops P Q) /\ SO2 (tr_SO2_div Rops P Q) /\ SO2 (tr_SO2_inv Rops P)) /\
+  (SE2 E -> SE2 F -> SE2 (tr_SE2_mul Rops E F) /\ SE2 (tr_SE2_div Rops E F) /\ SE2 (tr_SE2_inv Rops E) /\ SE2 (tr_trinv2 Rops E)).
 Proof.
   intros. pose proof (C01_SO3_closed X Y). pose proof (C01_SE3_closed A B). pose proof (C01_SO2_closed P Q). pose proof (C01_SE2_closed E F). tauto.
 Qed.
@@ -102,6 +109,24 @@ Proof.
   - intros a Ha. apply (C01_SE3_closed a a Ha Ha).
 Qed.
 Print Assumptions C01_closure_expr_SE3.
+
+(* 2-D groups (possible since SO2.inv / SE2.inv are traceable) *)
+Definition evalSO2 := eval (I22 Rops) (tr_SO2_mul Rops) (tr_SO2_inv Rops).
+Definition evalSE2 := eval (I33 Rops) (tr_SE2_mul Rops) (tr_SE2_inv Rops).
+Lemma SE2_I33 : SE2 (I33 Rops).
+Proof. unfold SE2. lin_simpl. split; [ unfold SO2; repeat split; ring | reflexivity ]. Qed.
+Theorem C01_closure_expr_SO2_SE2 : forall (e : expr) (env2 : nat -> M22 R) (env3 : nat -> M33 R),
+  ((forall i, SO2 (env2 i)) -> SO2 (evalSO2 env2 e)) /\ ((forall i, SE2 (env3 i)) -> SE2 (evalSE2 env3 e)).
+Proof.
+  intros e env2 env3. split; intros H; [unfold evalSO2 | unfold evalSE2]; apply closure_expr; try assumption.
+  - apply SO2_I.
+  - intros a b Ha Hb. apply (C01_SO2_closed a b Ha Hb).
+  - intros a Ha. apply (C01_SO2_closed a a Ha Ha).
+  - apply SE2_I33.
+  - intros a b Ha Hb. apply (C01_SE2_closed a b Ha Hb).
+  - intros a Ha. apply (C01_SE2_closed a a Ha Ha).
+Qed.
+Print Assumptions C01_closure_expr_SO2_SE2.
 
 (* unit quaternions with the Hamilton-product and conjugate kernels (the class operators additionally re-normalise,
    see C01_unit_quaternion_operators) *)
